@@ -230,6 +230,7 @@ Proof.
   - apply pop_n_coh, H.
   - proj; exact H.
   - apply coh_append_to_history, H.
+  - unfold reopen, reset; proj. apply coh_init.
 Qed.
 
 Lemma step_coh c s o : Coh (store s) -> Coh (store (step_state c s o)).
@@ -263,7 +264,7 @@ Lemma append_dedupe_unloaded_pinned_refuted :
     sto (store s) = [text s] /\ text s <> [] /\
     sto (store (append_to_history_pinned s)) = [text s; text s].
 Proof.
-  exists (mk [[97]] 0 1 None None V_UNKNOWN false (mkst [] [[97]] false) None false false).
+  exists (mk [[97]] 0 1 None None V_UNKNOWN false (mkst [] [[97]] false) None false false false).
   repeat split; try (vm_compute; congruence); try reflexivity.
   apply coh_init.
 Qed.
